@@ -158,6 +158,9 @@ def delete(rng):
         g.emit("pub %s %s" % (hx(t), jl(_payload(rng, "pre") for _ in range(rng.range(1, 3)))))
         if rng.chance(1, 2):
             g.emit("pull %s 10 1" % hx(s))
+    topic_gone = rng.chance(1, 4)
+    if topic_gone:
+        g.emit("dtopic " + hx(t))        # the subscription outlives its topic, then is deleted
     k = 1
     for c in range(rng.range(1, 4)):
         g.emit("task w%d" % c)
@@ -322,7 +325,94 @@ def swallow(rng):
     return g.lines
 
 
-PROFILES = {"swallow": swallow, "mix": mix, "wake": wake, "delete": delete, "burst": burst, "cancel": cancel}
+def race(rng):
+    """C06: the availability event (publish / nack) races with the consumer's check-then-wait step:
+    both are issued at the same virtual instant with 0..4 scheduler yields of relative offset."""
+    g = ConcGen(rng)
+    if rng.chance(1, 2):
+        g.lines[0] = "new cap=%d yield=0" % rng.choice([1, 2, 16])
+    g.setup(1, 1, dls=(10,))
+    s = sorted(g.subs)[0]
+    t = g.topics[0]
+    pre = rng.choice([0, 1, 1, 2])
+    if pre:
+        g.emit("pub %s %s" % (hx(t), jl(_payload(rng, "pre") for _ in range(pre))))
+        g.emit("pull %s %d 1" % (hx(s), pre))
+    for c in range(rng.choice([1, 1, 2, 3])):
+        g.emit("task c%d" % c)
+        a = rng.range(0, 4)
+        if a:
+            g.emit("yield %d" % a)
+        g.emit("pull %s %d 0" % (hx(s), rng.choice([1, 1, 5])))
+    g.emit("task producer")
+    b = rng.range(0, 6)
+    if b:
+        g.emit("yield %d" % b)
+    if pre and rng.chance(2, 3):
+        g.emit("mod %s 0 %s" % (hx(s), jl(hx(str(i + 1)) for i in range(rng.range(1, pre)))))
+    else:
+        g.emit("pub %s %s" % (hx(t), jl(_payload(rng, "m") for _ in range(rng.choice([1, 1, 2])))))
+    g.emit("task probe")
+    g.emit("sleep 1000")
+    g.emit("probe " + hx(s))
+    g.emit("sleep 5000000")
+    g.emit("probe " + hx(s))
+    g.emit("go")
+    g.epilogue()
+    return g.lines
+
+
+def namerace(rng):
+    """C10 / C11: creates and deletes of the same topic / subscription names racing each other
+    (racing creates of one name, create racing delete, delete racing delete), then the final state
+    is observed sequentially."""
+    g = ConcGen(rng)
+    if rng.chance(1, 3):
+        g.lines[0] = "new cap=%d yield=0" % rng.choice([1, 2, 16])
+    t = tname("p", "t0")
+    t2 = tname("p", "t1")
+    s = sname("p", "s0")
+    g.emit("ctopic " + hx(t))
+    if rng.chance(1, 2):
+        g.emit("ctopic " + hx(t2))
+    exists = rng.chance(3, 4)
+    if exists:
+        g.emit("csub %s %s 10 -" % (hx(s), hx(t)))
+    g.topics = [t]
+    n = rng.range(2, 4)
+    for i in range(n):
+        g.emit("task n%d" % i)
+        for _ in range(rng.range(1, 2)):
+            y = rng.range(0, 8)
+            if y:
+                g.emit("yield %d" % y)
+            op = rng.weighted([("dsub", 4), ("csub", 5), ("gsub", 2), ("csub2", 1), ("pub", 1), ("dtopic", 1), ("ctopic", 1)])
+            if op == "dsub":
+                g.emit("dsub " + hx(s))
+            elif op == "csub":
+                g.emit("csub %s %s 10 -" % (hx(s), hx(t)))
+            elif op == "csub2":
+                g.emit("csub %s %s 10 -" % (hx(s), hx(t2)))
+            elif op == "gsub":
+                g.emit("gsub " + hx(s))
+            elif op == "pub":
+                g.emit("pub %s %s" % (hx(t), _payload(rng, "r")))
+            elif op == "dtopic":
+                g.emit("dtopic " + hx(t2))
+            else:
+                g.emit("ctopic " + hx(t2))
+    g.emit("go")
+    g.emit("gsub " + hx(s))
+    g.emit("wsubs %s 1000" % hx(b"projects/p"))
+    g.emit("wtsubs %s 1000" % hx(t))
+    g.emit("wtsubs %s 1000" % hx(t2))
+    g.emit("pub %s %s" % (hx(t), _payload(rng, "probe")))
+    g.emit("pub %s %s" % (hx(t2), _payload(rng, "probe2")))
+    g.emit("pull %s 1000 1" % hx(s))
+    return g.lines
+
+
+PROFILES = {"namerace": namerace, "race": race, "swallow": swallow, "mix": mix, "wake": wake, "delete": delete, "burst": burst, "cancel": cancel}
 
 
 def cases(rng, profile, n):
